@@ -28,16 +28,20 @@ def ev(e: ast.AST, env: Dict[str, Any], sym: Callable[[ast.AST], Optional[str]])
         return UNKNOWN if v is UNKNOWN else (not v)
     if isinstance(e, ast.BoolOp):
         vals = [ev(v, env, sym) for v in e.values]
-        if isinstance(e.op, ast.And):
-            if any(v is not UNKNOWN and not v for v in vals):
-                return False
-            if all(v is not UNKNOWN for v in vals):
-                return vals[-1]
-            return UNKNOWN
-        if any(v is not UNKNOWN and v for v in vals):
-            return True
-        if all(v is not UNKNOWN for v in vals):
+        is_and = isinstance(e.op, ast.And)
+        # Python's value semantics while every earlier operand is decided
+        for v in vals:
+            if v is UNKNOWN:
+                break
+            if bool(v) != is_and:
+                return v
+        else:
             return vals[-1]
+        # an undecided operand: only the truth value may still be known
+        if is_and and any(v is not UNKNOWN and not v for v in vals):
+            return False
+        if not is_and and any(v is not UNKNOWN and v for v in vals):
+            return True
         return UNKNOWN
     if isinstance(e, ast.IfExp):
         t = ev(e.test, env, sym)
